@@ -27,6 +27,7 @@ def structures(ctx):
     out.append(("blank+B+lig", C.join(C.rename_chain(a, "A", " ") + [C.TER] + b + [C.TER] + C.rename_chain(lig, "B", "L"))))
     no_oxt = lambda ls: C.drop(ls, lambda ln: ln[12:16].strip() == "OXT")  # noqa
     out.append(("A,B,C-no-TER", C.join(no_oxt(a) + no_oxt(b) + C.rename_chain(C.chain_lines("1HPX", "A", 60, 10), "A", "C"))))
+    out.append(("A+B+blank-lig", C.join(a + [C.TER] + b + [C.TER] + C.rename_chain(lig, "B", " "))))
     # chain identifiers that differ only in case (large assemblies run out of upper-case letters), digits
     out.append(("chains-A+a", C.join(a + [C.TER] + C.rename_chain(b, "B", "a") + [C.TER])))
     if ctx.thorough():
